@@ -11,6 +11,10 @@ CHECKS = {
          "All 8 signer subsets x 16 verifier subsets (RSA, ECDSA, Ed25519 + foreign key) on 2 (thorough 3) layout shapes, both wrappers, both entry points; every single-point alteration of the signed layout found by a reflective walk (applied in memory and in the file under the old signatures); 20+ signature-list alterations per signer set; supplied-key alterations incl. same-id/foreign-material and short histories (genuine then forged, forged then genuine). accept only if every supplied key has a valid signature over the enforced content; on reject no marker inspection ran and the error is the same with complete, empty and garbage link directories; all permutations of the layout-key loop.",
          "Trusted: construction (who signed which bytes). Outside: key values, >= 2 simultaneous alterations (thorough adds shape 3 only), layouts beyond the shapes.",
          "DESIGN.md §3 C01"),
+ "C11": ("bounded-exhaustive schema walk (leaf x alteration, leaf x character, re-serialisations, numbers) plus all short SetPayload histories, differential against a reference canonical-JSON encoder over an independently spelled schema",
+         "For a fully populated and an empty link and layout in both wrappers: the signable bytes equal ref.Canon of a tree whose field names the reference spells out itself (a changed struct tag or omitempty is a disagreement); every reflective single-point alteration yields different bytes (injectivity); 24 characters are placed into every string leaf, an artifact path and a by-product key - legacy bytes equal the reference, the DSSE payload is valid JSON decoding to the value that was set, and the library's own loader reads the dumped file back with a valid signature; five re-serialisations of every dumped file load to identical signable bytes through both loaders; non-integral numbers are refused by encoder and Sign without leaving a signature; every history of set / mutate-in-place / re-set / sign on one envelope up to depth 3 (4) leaves a payload equal to the value last set.",
+         "Trusted: ref.Canon, refschema (the spelled-out schema), encoding/json as strict JSON validator. Outside: invalid UTF-8, numbers beyond int64, nil-vs-empty distinctions.",
+         "DESIGN.md §3 C11"),
  "C17": ("bounded-exhaustive enumeration of all patterns x all names over metacharacter alphabets, differential against a reference matcher",
          "Every pattern up to length 5 (quick) / 6 (thorough) over an alphabet holding every metacharacter, against every name up to length 4 / 5, "
          "plus a metacharacter-name and a UTF-8 alphabet, is pushed through Set.Filter and compared with an independent backtracking matcher written from the documented grammar; "
